@@ -16,6 +16,7 @@ import (
 	"github.com/sanonone/kektordb/pkg/engine"
 )
 
+// (Also referenced by the handlers' clause body-read-through-decodeBody.)
 func TestGovcScenario(t *testing.T) {
 	dir := t.TempDir()
 	eng, err := engine.Open(engine.DefaultOptions(dir))
@@ -49,6 +50,9 @@ func TestGovcScenario(t *testing.T) {
 		{"/vector/actions/create", `{"index_name":"g","metric":"euclidean"}]]] not json`},
 		{"/vector/actions/add", `{"index_name":"ok","id":"a","vector":[1,2]}{"x":`},
 		{"/kv/k1", `{"value":"v"} trailing`},
+		// routes that used to call a JSON decoder themselves
+		{"/graph/actions/link", `{"index_name":"ok","source_id":"a","target_id":"b","relation_type":"r"}}}}`},
+		{"/vector/actions/import", `{"index_name":"ok","vectors":[{"id":"imp","vector":[1,2]}]}]]] not json`},
 	} {
 		code, resp := post(c.path, c.body)
 		if code < 400 || code >= 500 {
